@@ -53,6 +53,8 @@ RULE = ("dataset layouts = compositions of up to 6 volumes with 1..9 slices; wor
         "(limited) layout, or for chunks/dist/concat a split into >= 2 parts of a list with >= 2 elements; distinct = distinct "
         "protocol line")
 PENDING_FINDINGS: list[str] = []
+EXTRA_LEAN_MODULES = ["DirectVerif.Lemmas.C13Machine", "DirectVerif.Lemmas.C13Bvs", "DirectVerif.Lemmas.C13Chunks",
+                      "DirectVerif.Lemmas.C13Misc"]   # helper lemmas: hygiene-checked and axiom-audited too
 
 
 # --------------------------------------------------------------------------------------------------
@@ -229,6 +231,17 @@ def correspondence(ctx: Ctx):
         yield bvs_case(layout, world, rank, limit, bs, _rand_ops(rng))
         if rng.random() < 0.4:
             yield seq_case(layout, world, rank, limit)
+    # fixed corners in every run: one-slice volumes, batch size 1 and > the largest volume, ranks > volumes, world sizes
+    # that do not divide the number of volumes, single volume, limits larger than the list / negative
+    for layout, world, rank, limit, bs in (
+            ([1, 1, 1], 1, 0, 0, 1), ([1, 1, 1], 2, 1, 0, 5), ([9, 9], 1, 0, 0, 10), ([9, 1, 9], 1, 0, 0, 1),
+            ([2, 3], 8, 7, 0, 2), ([2, 3], 8, 1, 0, 2), ([5], 3, 0, 0, 2), ([5], 3, 2, 0, 2), ([1], 1, 0, 0, 1),
+            ([3, 4, 5, 6, 7, 8], 4, 3, 0, 3), ([3, 4, 5, 6, 7], 3, 1, 0, 4), ([3, 4, 5], 2, 0, -1, 2),
+            ([3, 4, 5], 2, 1, 9, 2), ([3, 4, 5, 2], 3, 2, 2, 3)):
+        c = bvs_case(layout, world, rank, limit, bs, [0, 1, 0])
+        c["bucket"] = "corner/" + c["bucket"]
+        yield c
+        yield seq_case(layout, world, rank, limit)
     # all ranks of some configurations (partition seen by the model, too)
     for _ in range(ctx.budget(12, 120)):
         layout = _rand_layout(rng)
@@ -364,6 +377,35 @@ def correspondence(ctx: Ctx):
             state["draws"], state["streams"] = [], [[] for _ in sizes]
         yield {"line": line("concat", sizes, [bs], state["draws"], *state["streams"]), "impl": (lambda ans=ans: ans),
                "nontrivial": len(sizes) >= 2 and not bad, "bucket": "concat/" + ("bad" if bad else "member<bs" if min(sizes) < bs else f"members={len(sizes)}")}
+
+    # ---- the training path: Engine.build_batch_sampler(list of datasets, bs, "random") -> seed=None -> one
+    # communication.shared_random_seed() (= np.random.randint(2**31)) per member, in member order; streams rebuilt here from
+    # those seeds with torch.randperm directly (independent of DistributedSampler)
+    import numpy as np
+    from direct.engine import Engine
+    for _ in range(ctx.budget(12, 120)):
+        sizes = [rng.randint(1, 7) for _ in range(rng.randint(1, 4))]
+        bs = rng.randint(1, 5)
+        ndraws, k = rng.randint(1, 8), rng.randrange(2 ** 20)
+        st = np.random.get_state()
+        try:
+            np.random.seed(k)
+            seeds = [int(np.random.randint(2 ** 31)) for _ in sizes]
+            np.random.seed(k)
+            with recorded_choices() as rec:
+                smp = Engine.build_batch_sampler([H.IndexDataset([n]) for n in sizes], bs, "random")
+                batches = [list(map(int, next(smp))) for _ in range(ndraws)]
+        finally:
+            np.random.set_state(st)
+        streams = []
+        for n, sd in zip(sizes, seeds):
+            g = torch.Generator()
+            g.manual_seed(sd)
+            need = ndraws * bs
+            streams.append([int(i) for _e in range(need // n + 1) for i in torch.randperm(n, generator=g)][:need])
+        ans = ("ok " + " | ".join(ints(b) for b in batches)).strip()
+        yield {"line": line("concat", sizes, [bs], rec.draws, *streams), "impl": (lambda ans=ans: ans),
+               "nontrivial": len(sizes) >= 2, "bucket": "concat/engine-random-seed=None"}
 
     # ---- DistributedSampler: rank-strided stream over the epoch permutations
     for _ in range(ctx.budget(40, 400)):
@@ -562,6 +604,10 @@ def oracle(ctx: Ctx, deep: bool = False):
             "(Lean witness C13.bvs_empty_volume_mixes; every theorem assumes non-empty volumes)")})
     except Exception as e:  # noqa: BLE001
         ctx.notes.append({"empty-volume-after-filter": f"probe failed: {err_name(e)}"})
+    # (1c) which sampler the engine builds: "sequential" (predict / validation_loop) -> BatchVolumeSampler over a
+    # DistributedSequentialSampler of this process' rank; "random" (training_loop) -> ConcatDatasetBatchSampler over shuffling
+    # DistributedSamplers; anything else is rejected
+    yield from _dispatch_checks(ctx)
     # (2) concat sampler: every batch inside one member, full
     for _ in range(ctx.budget(40, 400)):
         sizes = [rng.randint(1, 9) for _ in range(rng.randint(1, 4))]
@@ -600,6 +646,75 @@ def oracle(ctx: Ctx, deep: bool = False):
         if _dist_bad(size, world, seed, shuffle):
             yield Violation("dist-partition", "rank streams do not partition a stream of epoch permutations",
                             {"op": "dist", "size": size, "world": world, "seed": seed, "shuffle": shuffle})
+    # (3b) seed=None: every process must use the same (shared) seed although their global numpy states differ
+    for _ in range(ctx.budget(10, 100)):
+        size, world, k = rng.randint(3, 9), rng.randint(2, 5), rng.randrange(2 ** 20)
+        ctx.count(("dist-seed-none", size, world, k), True, bucket="oracle/dist-seed=None-simulated-ranks")
+        if _dist_seed_none_bad(size, world, k):
+            yield Violation("dist-partition-seed-none", "with seed=None the simulated ranks do not share one seed: their streams "
+                            "do not partition a stream of epoch permutations",
+                            {"op": "dist-seed-none", "size": size, "world": world, "k": k})
+
+
+def _dispatch_one(layout, world, rank, bs):
+    """None, or what is wrong with the samplers / loader the engine builds for this configuration"""
+    import direct.data.samplers as S
+    import direct.utils.communication as comm
+    from direct.engine import Engine
+
+    ds = H.IndexDataset(layout)
+    bad = None
+    old_gather = comm.all_gather
+    try:
+        comm.all_gather = lambda data, group=None: [data]      # one process stands in for all ranks
+        try:
+            with patched_comm(rank, world):
+                b = Engine.build_batch_sampler(ds, bs, "sequential", limit_number_of_volumes=None)
+                r = Engine.build_batch_sampler([H.IndexDataset([n]) for n in layout], bs, "random")
+        finally:
+            comm.all_gather = old_gather
+        ref = S.DistributedSequentialSampler(ds, num_replicas=world, rank=rank)
+        if type(b) is not S.BatchVolumeSampler or type(b.sampler) is not S.DistributedSequentialSampler:
+            bad = f"'sequential' builds {type(b).__name__} over {type(getattr(b, 'sampler', None)).__name__}"
+        elif list(b.sampler) != list(ref) or b.batch_size != bs or (b.sampler.num_replicas, b.sampler.rank) != (world, rank):
+            bad = "'sequential' sampler is not the one of this process (rank/world from communication) with the given batch size"
+        elif type(r) is not S.ConcatDatasetBatchSampler or r.batch_size != bs or \
+                [type(x) for x in r.samplers] != [S.DistributedSampler] * len(layout) or \
+                [(x._size, x._shuffle, x._rank, x._world_size) for x in r.samplers] != [(n, True, rank, world) for n in layout]:
+            bad = "'random' does not build a ConcatDatasetBatchSampler over shuffling per-member DistributedSamplers of this rank"
+        else:
+            loader = Engine.build_loader(ds, batch_sampler=b, num_workers=0)
+            if loader.batch_sampler is not b or [x.tolist() for x in loader] != [list(x) for x in b]:
+                bad = "build_loader does not iterate the batch sampler it was given, batch by batch"
+        for t in ("Random", "sequential ", "", None):
+            try:
+                Engine.build_batch_sampler(ds, bs, t)
+                bad = bad or f"sampler_type {t!r} accepted"
+            except ValueError:
+                pass
+        for arg in (ds, [ds, "x"]):
+            try:
+                Engine.build_batch_sampler(arg, bs, "random")
+                bad = bad or "'random' accepted something that is not a list of datasets"
+            except ValueError:
+                pass
+    except Exception as e:  # noqa: BLE001
+        bad = f"raises {err_name(e)}: {e!r}"[:200]
+    return bad
+
+
+def _dispatch_checks(ctx):
+    rng = ctx.rng
+    for _ in range(ctx.budget(6, 40)):
+        layout = _rand_layout(rng)
+        world = rng.randint(1, 5)
+        rank = rng.randrange(world)
+        bs = rng.randint(1, 6)
+        ctx.count(("dispatch", tuple(layout), world, rank, bs), len(layout) >= 2, bucket="oracle/dispatch")
+        bad = _dispatch_one(layout, world, rank, bs)
+        if bad:
+            yield Violation("engine-sampler-dispatch", "Engine.build_batch_sampler / build_loader: " + bad,
+                            {"op": "dispatch", "layout": layout, "world": world, "rank": rank, "bs": bs, "observed": bad})
 
 
 def _concat_bad(sizes, bs, seed, world, rank, ndraws):
@@ -613,6 +728,38 @@ def _concat_bad(sizes, bs, seed, world, rank, ndraws):
             if len(b) != bs or not any(all(cum[m] <= i < cum[m + 1] for i in b) for m in range(len(sizes))):
                 return b
     return None
+
+
+def _dist_seed_none_bad(size, world, k) -> bool:
+    """seed=None on `world` simulated processes whose global numpy streams differ (as they do in real runs): all ranks
+    must end up with rank 0's seed (communication.shared_random_seed -> all_gather), otherwise the rank streams do not
+    partition one stream of epoch permutations.  all_gather is simulated: it returns rank 0's datum first."""
+    import numpy as np
+    import direct.utils.communication as comm
+    from direct.data.samplers import DistributedSampler
+
+    n = 2 * size + 3
+    st = np.random.get_state()
+    old_gather = comm.all_gather
+    first = []
+    streams = []
+    try:
+        for rank in range(world):
+            np.random.seed(k + 7919 * rank)          # every process has its own global numpy state
+
+            def gather(data, group=None, rank=rank):
+                if rank == 0:
+                    first.append(data)
+                return [first[0]] + [data] * (world - 1)
+            comm.all_gather = gather
+            with patched_comm(rank, world):
+                s = DistributedSampler(size, shuffle=True, seed=None)
+                streams.append([int(i) for i in itertools.islice(iter(s), n)])
+    finally:
+        comm.all_gather = old_gather
+        np.random.set_state(st)
+    merged = [streams[j % world][j // world] for j in range(n * world)]
+    return any(sorted(merged[e * size:(e + 1) * size]) != list(range(size)) for e in range(len(merged) // size))
 
 
 def _dist_bad(size, world, seed, shuffle) -> bool:
@@ -643,6 +790,8 @@ def replay(rep: dict) -> bool:
             return any(key == rep.get("key") for key, _, _ in H.check_history(
                 rep["layout"], rep["world"], rep["rank"], rep["limit"], rep["bs"], rep["mode"],
                 [tuple(o) for o in rep["ops"]], rep.get("abandon_kinds", [])))
+        if op == "dispatch":
+            return _dispatch_one(rep["layout"], rep["world"], rep["rank"], rep["bs"]) is not None
         if op == "chunks":
             from direct.utils import chunks
             cs = list(chunks(list(range(rep["n"])), rep["k"]))
@@ -652,6 +801,8 @@ def replay(rep: dict) -> bool:
             return _concat_bad(rep["sizes"], rep["bs"], rep["seed"], rep["world"], rep["rank"], 12) is not None
         if op == "dist":
             return _dist_bad(rep["size"], rep["world"], rep["seed"], rep["shuffle"])
+        if op == "dist-seed-none":
+            return _dist_seed_none_bad(rep["size"], rep["world"], rep["k"])
         if op == "ceil":
             return math.ceil(rep["n"] / rep["bs"]) != -(-rep["n"] // rep["bs"])
     except Exception:  # noqa: BLE001
